@@ -146,9 +146,10 @@ def main():
         "setup_cmd": "./tools/setup.sh",
         "hooks": {
             "guard": "ALLENABY_RLBOX_VERIF",
-            "enable": "kernels are compiled with -DALLENABY_RLBOX_VERIF; no source hook is needed (DESIGN.md 3.3), so the define guards nothing in /repo",
+            "enable": "every kernel TU is compiled with -DALLENABY_RLBOX_VERIF (engine/fw.py); the one source hook is rlbox_sandbox::verif_advance_incarnation "
+                      "(stands for n create/destroy cycles of a not-created sandbox object; used by C13/C14 to quantify over the distance between incarnations; DESIGN.md 3.3)",
             "baseline_off_cmd": "cmake -S /repo -B /repo/_build -G Ninja >/dev/null && cmake --build /repo/_build >/dev/null && ctest --test-dir /repo/_build -j8 --timeout 900",
-            "source_commits": [],
+            "source_commits": ["34c2b8f"],
             "add_only": True,
         },
         "engines": [{
